@@ -217,8 +217,14 @@ def step_definitions(plan):
         emit = info.get("emit") or {}
         return emit["msg"] if emit.get("msg") is not None else default
 
+    RETURNS = {"False": False, "0": 0, "True": True, "text": u"a value", "empty": u""}
+
     def do_pass(context, uid):
         enter(context, uid)
+        # a step function may return anything (a step that doubles as a helper): what it returns is not an outcome
+        ret = ((plan.step_info.get(uid) or {}).get("emit") or {}).get("ret")
+        if ret is not None:
+            return RETURNS[ret]
 
     def do_fail(context, uid):
         enter(context, uid)
